@@ -32,7 +32,7 @@ let run_case toks obs =
            if kv "panic" okv <> "" then Printf.sprintf "PROPFAIL %s sig=panic the dial panicked: %s" id (kv "panic" okv) else
            let ctor = match kv "ctor" k with
              | "pem" | "pemdialable" -> CtorPEM (true, [ issuer_of (kv "roots" k) ])
-             | "pembad" -> CtorPEM (false, [])
+             | "pembad" | "pemempty" | "pemblank" | "pemtext" -> CtorPEM (false, [])
              | "config" ->
                  CtorConfig { t_roots = (match kv "roots" k with "" | "none" -> None | r -> Some [ issuer_of r ]);
                               t_name = (match kv "name" k with "" | "-" -> None | n -> Some (zi (name_id n)));
